@@ -78,6 +78,7 @@ type Snap struct {
 	Bbm       []Iv     `json:"bbm"` // set bits of the on-disk block bitmap
 	Ibm       []Iv     `json:"ibm"`
 	Inodes    []SInode `json:"inodes"` // every inode with a non-zero field
+	Ipos      []int    `json:"ipos"`   // large snapshots only: ipos[inum] = position of that inode in Inodes (1-based), 0 = not listed
 	Dirs      []SDir   `json:"dirs"`
 	NonZero   []Iv     `json:"nonzero"` // data-region blocks with a non-zero byte
 	Running   bool     `json:"running"` // caches/allocators present
@@ -290,6 +291,19 @@ func TakeSnap(s *Srv, who string, running bool) *Snap {
 			sn.Icache = append(sn.Icache, c)
 		})
 		sort.Slice(sn.Icache, func(i, j int) bool { return sn.Icache[i].Inum < sn.Icache[j].Inum })
+	}
+	sn.Ipos = []int{}
+	if len(sn.Inodes) > 300 {
+		max := 0
+		for _, in := range sn.Inodes {
+			if in.Inum > max {
+				max = in.Inum
+			}
+		}
+		sn.Ipos = make([]int, max+1)
+		for k, in := range sn.Inodes {
+			sn.Ipos[in.Inum] = k + 1
+		}
 	}
 	return sn
 }
